@@ -1,0 +1,59 @@
+//go:build verif
+
+// Contracts for the verifier in /verif (comment-only file; contributes no declarations).
+package lunarcontext
+
+// The only ContextI built by NewContext() in this tree is *contextMemory (closed world, listed as an assumption).
+//@ devirt ContextI => *contextMemory
+
+// ---- key construction: buildKey(key, suffix) = Sprintf("%s // %s", key, suffix) ----
+//@ axiom[key-inj]      forall(a, string, forall(b, string, forall(s, string, sprintf("%s // %s", a, s) == sprintf("%s // %s", b, s) ==> a == b)))
+//@ axiom[key-suffix]   forall(a, string, forall(b, string, sprintf("%s // %s", a, "_counter") != sprintf("%s // %s", b, "_window_start")))
+//@ axiom[key-nonempty] forall(a, string, forall(s, string, sprintf("%s // %s", a, s) != ""))
+
+// ---- views of the context map ----
+//@ ghost func cmOf(p *memoryState[int64]) *contextMemory = p.contextMemory.(*contextMemory)
+//@ ghost func ckey(k string) string = sprintf("%s // %s", k, "_counter")
+//@ ghost func wkey(k string) string = sprintf("%s // %s", k, "_window_start")
+//@ ghost func hasC(p *memoryState[int64], k string) bool = smapin(cmOf(p).ctx, ckey(k))
+//@ ghost func hasW(p *memoryState[int64], k string) bool = smapin(cmOf(p).ctx, wkey(k))
+//@ ghost func valC(p *memoryState[int64], k string) int64 = smapget(cmOf(p).ctx, ckey(k)).(int64)
+//@ ghost func valW(p *memoryState[int64], k string) int64 = smapget(cmOf(p).ctx, wkey(k)).(int64)
+//@ ghost func cntOf(p *memoryState[int64], k string) int64 = ite(hasC(p, k), valC(p, k), 0)
+
+// ---- ghost history per counter key ----
+//@ ghost field memoryState.gAdm gmap[string]int64    // cost admitted in the current epoch of the key
+//@ ghost field memoryState.gEnd gmap[string]int64    // end of the current epoch (stored start * 1e9 + window)
+//@ ghost field memoryState.gLast gmap[string]int64   // time of the last admission
+//@ ghost field memoryState.gWin gmap[string]int64    // the window length the key is used with (fixed)
+
+//@ monitor memoryState.mutex
+//@   self p
+//@   protects smap(p.contextMemory.(*contextMemory).ctx), gAdm, gEnd, gLast
+//@   invariant[typed] forall(k, string, (hasC(p, k) ==> typeis(smapget(cmOf(p).ctx, ckey(k)), int64)) && (hasW(p, k) ==> typeis(smapget(cmOf(p).ctx, wkey(k)), int64)))
+//@   invariant[adm]   forall(k, string, cntOf(p, k) == p.gAdm[k])
+//@   invariant[last]  forall(k, string, p.gLast[k] < p.gEnd[k] && p.gLast[k] <= now())
+//@   invariant[end]   forall(k, string, hasW(p, k) ==> p.gEnd[k] == valW(p, k) * 1000000000 + p.gWin[k])
+
+//@ func (*memoryState).AtomicIncWindow
+//@   prop C01
+//@   instantiate T=int64
+//@   params key, incrBy, windowSize, maxAllowed
+//@   results newCount, restarted, err
+//@   requires typeis(p.contextMemory, *contextMemory) && cmOf(p) != nil
+//@   requires windowSize > 0 && windowSize % 1000000000 == 0 && windowSize == p.gWin[key] && incrBy >= 0
+//@   modifies smapof(cmOf(p).ctx), p.gAdm, p.gEnd, p.gLast, now
+//@   on return when err == nil do p.gAdm[key] = ite(restarted, 0, atlock(p.gAdm[key])) + incrBy; p.gLast[key] = currentTime; p.gEnd[key] = windowStart.Unix() * 1000000000 + windowSize
+//@   ensures[restart]  seq: restarted <==> (old(hasW(p, key)) && currentTime - old(valW(p, key)) * 1000000000 >= windowSize)
+//@   ensures[gate]     seq: err == nil ==> newCount == ite(restarted, 0, old(cntOf(p, key))) + incrBy && newCount <= maxAllowed && cntOf(p, key) == newCount
+//@   ensures[refuse]   seq: err != nil ==> ite(restarted, 0, old(cntOf(p, key))) + incrBy > maxAllowed && cntOf(p, key) == old(cntOf(p, key)) && (hasW(p, key) <==> old(hasW(p, key))) && valW(p, key) == old(valW(p, key))
+//@   ensures[frame]    seq: forall(k, string, k != key ==> cntOf(p, k) == old(cntOf(p, k)) && (hasW(p, k) <==> old(hasW(p, k))) && valW(p, k) == old(valW(p, k)))
+//@   ensures[bound]    conc: err == nil ==> p.gAdm[key] <= maxAllowed
+//@   ensures[in-epoch] conc: err == nil ==> currentTime < p.gEnd[key]
+//@   ensures[epochs]   conc: err == nil && restarted ==> currentTime >= atlock(p.gEnd[key]) && p.gEnd[key] >= atlock(p.gEnd[key]) + windowSize
+
+// a memoryState whose context is the in-memory map (what NewMemoryState builds)
+//@ ghost func msValid(p *memoryState[int64]) bool = p != nil && typeis(p.contextMemory, *contextMemory) && cmOf(p) != nil
+// raw keys written by quota.storeCountIntoContext ("<key>_currentCount", "<key>_spilloverCount") never collide with counter keys
+//@ axiom[rawkey-c] forall(a, string, forall(s, string, forall(b, string, sprintf("%s_%s", a, s) != sprintf("%s // %s", b, "_counter"))))
+//@ axiom[rawkey-w] forall(a, string, forall(s, string, forall(b, string, sprintf("%s_%s", a, s) != sprintf("%s // %s", b, "_window_start"))))
